@@ -138,8 +138,8 @@ func c15mkInv(tag string) core.InvokeHandler { // closures of one (non-inlined) 
 type c15handler struct {
 	tag   string
 	value core.PluginHandler
-	inv   bool // contributes an invoke handler
-	io    bool // contributes an IO handler
+	inv   bool   // contributes an invoke handler
+	io    bool   // contributes an IO handler
 	group string // handlers sharing a code pointer (alias model only)
 }
 
